@@ -26,9 +26,11 @@ from chameleon.utils import descriptorstr
 
 
 NAME = r"[a-zA-Z_][-a-zA-Z0-9_]*"
+# A variable name is a Python identifier (not restricted to ASCII).
+VARIABLE_NAME = r"[^\W\d][-\w]*"
 DEFINE_RE = re.compile(
     r"(?s)\s*(?:(global|local)\s+)?" +
-    r"({}|\({}(?:,\s*{})*\))\s+(.*)\Z".format(NAME, NAME, NAME),
+    r"({}|\({}(?:,\s*{})*\))\s+(.*)\Z".format(*[VARIABLE_NAME] * 3),
     re.UNICODE)
 SUBST_RE = re.compile(r"\s*(?:(text|structure)\s+)?(.*)\Z", re.S | re.UNICODE)
 # (a first word that ends in a colon is the type prefix of a dictionary
